@@ -7,13 +7,15 @@ tracked start position, flushed into bucket `(T, k)`; `mixture_expect_and_var`).
 
 The accumulator theorems hold over any additive commutative group (ℚ, ℝ, …), for every list of local
 trees and **every** choice of flush sets that contains the nodes whose record `(presence, T, k)`
-changes (`Adequate`).  PARTIAL: that the code's edge-diff bookkeeping (`changed_nodes`,
-`disappearing_nodes`, `unary_descendants`, the "total changed" branch) always yields an adequate flush
-set, and that its running `T` and `num_tracked_samples` are the per-tree counts, is *not* proved; it
-is tied by I/O correspondence (harness/spans_corr.py, which also evaluates `Adequate` on the flush
-sets the real code uses).  The full statement is `C15_statement` below.
+changes (`Adequate`).  The flush *rule* the code follows (walk up the previous tree from the changed
+nodes; everything when the sample total changes) is proved adequate (`flush_rule_covers_changes`,
+`accumulate_eq_tally_of_rule`, `rule_flush_complete`).  PARTIAL: that the code's bookkeeping with
+`num_children` counters, `disappearing_nodes`, `visited_nodes` and the running `T` *implements* that
+rule and the per-tree counts is not proved; it is tied by I/O correspondence (harness/spans_corr.py
+compares the flush sets the real code is observed to use with `ruleFlush` run on the real trees, and
+evaluates `Adequate` on them).  The full statement is `C15_statement` below.
 -/
-import TsdateVerif.Proofs.SpansMix
+import TsdateVerif.Proofs.SpansClosure
 
 namespace Tsdate.C15
 open Tsdate Tsdate.Spans
@@ -84,6 +86,39 @@ def C15_statement (N : Nat) (first : TreeRec α) (codeRest : List (List Nat × T
 theorem C15_statement_partial (N : Nat) (first : TreeRec α) (codeRest : List (List Nat × TreeRec α))
     (had : Adequate N first codeRest) : C15_statement N first codeRest :=
   fun h0 u hu T k => accumulate_eq_tally N first codeRest h0 had u hu T k
+
+/-- **The flush rule of `first_pass` is adequate.**  Trees given by parent functions; `Anc t c u` = `u`
+is `c` or an ancestor of `c`.  If the record `(presence, T, k)` of `u` derived from the trees (`k` =
+number of samples at or below `u`, absent iff `k = 0`) changes between `t` and `t'`, then `u` is reached
+by walking up the *previous* tree from a node whose parent changes or from the new parent of such a
+node, or the sample total changes and `u` is in the previous tree — exactly the nodes the code visits. -/
+theorem flush_rule_covers_changes (t t' : Nat → Option Nat) (S : List Nat) (T T' : Nat) (u : Nat)
+    (h : recFrom t S T u ≠ recFrom t' S T' u) :
+    InClosure t t' u ∨ (T ≠ T' ∧ descCount t S u ≠ 0) :=
+  rec_change_flush t t' S T T' u h
+
+/-- **Accumulated spans = tally whenever the flush sets contain the rule's set** (`FollowsRule`: the
+records are those of the parent functions, consecutive trees abut, and each flush set contains every
+node named by the rule).  The adequacy hypothesis of `accumulate_eq_tally` is discharged. -/
+theorem accumulate_eq_tally_of_rule (N : Nat) (S : List Nat)
+    (first : TreeRec α × (Nat → Option Nat))
+    (rest : List (List Nat × (TreeRec α × (Nat → Option Nat))))
+    (h0 : first.1.left = 0) (hrule : FollowsRule N S first rest) (u : Nat) (hu : u < N) (T k : Nat) :
+    bucket (accumulate N first.1 (rest.map (fun x => (x.1, x.2.1)))).log u T k
+      = tally (first.1 :: (rest.map (fun x => (x.1, x.2.1))).map Prod.snd) u T k :=
+  accumulate_eq_tally N first.1 _ h0 (adequate_of_rule N S first rest hrule) u hu T k
+
+/-- The executable rule (`ruleFlush`, run by the driver on the parent arrays of the real trees) names
+every node of the rule, provided parents have a larger rank (node time order) — so flush sets that
+contain `ruleFlush` satisfy `FollowsRule`. -/
+theorem rule_flush_complete (N : Nat) (par par' : Array (Option Nat)) (S : List Nat) (T T' : Nat)
+    (inPrev : Nat → Bool) (rank : Nat → Nat) (hsz : par.size ≤ N ∧ par'.size ≤ N)
+    (hrank : ∀ c p, aget par c = some p → rank c < rank p ∧ rank p < N)
+    (hin : ∀ u, u < N → descCount (fun x => aget par x) S u ≠ 0 → inPrev u = true)
+    (u : Nat) (hu : u < N)
+    (h : FlushRule (fun x => aget par x) (fun x => aget par' x) S T T' u) :
+    (ruleFlush N par par' T T' inPrev).contains u = true :=
+  ruleFlush_complete N par par' S T T' inPrev rank hsz hrank hin u hu h
 
 end Acc
 
